@@ -136,6 +136,8 @@ fn plain_op(wt: &Weights) -> BoxedStrategy<Op> {
         v.push((c, s().prop_map(Op::IncStrong).boxed()));
         v.push((c, s().prop_map(Op::DecStrong).boxed()));
         v.push((c * 2, s().prop_map(Op::DropLoose).boxed()));
+        v.push((c, s().prop_map(Op::WeakIntoRaw).boxed()));
+        v.push((c, s().prop_map(Op::WeakFromRaw).boxed()));
     }
     v.retain(|(w, _)| *w > 0);
     let base = proptest::strategy::Union::new_weighted(v).boxed();
@@ -202,7 +204,7 @@ fn op(g: &GenCfg) -> BoxedStrategy<Op> {
     let wn = g.weights.new;
     let total: u32 = {
         let w = &g.weights;
-        w.new + w.clone + w.drop + w.drop_closure + w.store + w.adopt_slot + w.unadopt + w.loopback + w.remove + w.strip + w.unique_root + w.clear_slots + w.downgrade + w.clone_weak + w.drop_weak + w.upgrade + w.store_weak + w.remove_weak + w.weak_new + w.probe + w.consume * 15
+        w.new + w.clone + w.drop + w.drop_closure + w.store + w.adopt_slot + w.unadopt + w.loopback + w.remove + w.strip + w.unique_root + w.clear_slots + w.downgrade + w.clone_weak + w.drop_weak + w.upgrade + w.store_weak + w.remove_weak + w.weak_new + w.probe + w.consume * 17
     };
     let mut wt = g.weights.clone();
     wt.new = 0;
